@@ -905,7 +905,36 @@ func stressLeaks(seed int64, scale int) int {
 			}
 			return 1, nil
 		}
-		switch i % 6 {
+		switch i % 9 {
+		case 6:
+			// cancelled twice while the function is still running (it only returns 300 us after the cancellation)
+			slow := func(e failsafe.Execution[int]) (int, error) { <-e.Canceled(); time.Sleep(300 * time.Microsecond); return 0, errX }
+			r := failsafe.NewExecutor[int](rp).GetWithExecutionAsync(slow)
+			time.Sleep(100 * time.Microsecond)
+			r.Cancel()
+			r.Cancel()
+			r.Get()
+		case 7:
+			// the context is cancelled, then the result is cancelled as well, while the function is still running
+			slow := func(e failsafe.Execution[int]) (int, error) { <-e.Canceled(); time.Sleep(300 * time.Microsecond); return 0, errX }
+			ctx, cancel := context.WithCancel(context.Background())
+			r := failsafe.NewExecutor[int](to, rp).WithContext(ctx).GetWithExecutionAsync(slow)
+			time.Sleep(100 * time.Microsecond)
+			cancel()
+			r.Cancel()
+			r.Get()
+		case 8:
+			// the hedge wins while the first attempt is slow to react and its own timeout elapses meanwhile
+			var k atomic.Int32
+			hr := func(e failsafe.Execution[int]) (int, error) {
+				if k.Add(1) == 1 {
+					<-e.Canceled()
+					time.Sleep(800 * time.Microsecond) // outlives its 500 us timeout after having lost
+					return 0, errX
+				}
+				return 1, nil
+			}
+			failsafe.NewExecutor[int](hedgepolicy.BuilderWithDelay[int](200*time.Microsecond).Build(), rp, timeout.With[int](500*time.Microsecond)).GetWithExecution(hr)
 		case 0:
 			failsafe.NewExecutor[int](fb, rp, to, hp).GetWithExecution(fn)
 		case 1:
@@ -1106,6 +1135,30 @@ func stressShared(seed int64, scale int) int {
 	}
 	close(stop)
 	wg.Wait()
+	// every property holds for each execution also under load: what the shared instances must look like once all is quiet
+	time.Sleep(5 * time.Millisecond)
+	free := 0
+	for bh.TryAcquirePermit() && free < 10 {
+		free++
+	}
+	for i := 0; i < free; i++ {
+		bh.ReleasePermit()
+	}
+	v.c["bulkhead-permits-free-at-quiescence"] = free
+	if free != 4 {
+		v.add(fmt.Sprintf("after all executions finished %d of 4 bulkhead permits are available (C06 under load)", free))
+	}
+	if cb.IsHalfOpen() {
+		// nothing is in flight: a half-open breaker must have all its trial permits (capacity 2: success threshold ratio 1 of 2)
+		n := 0
+		for cb.TryAcquirePermit() && n < 10 {
+			n++
+		}
+		v.c["halfopen-permits-at-quiescence"] = n
+		if n != 2 {
+			v.add(fmt.Sprintf("half-open breaker at quiescence has %d of 2 trial permits (C04 under load)", n))
+		}
+	}
 	return v.report("shared", workers*per)
 }
 
